@@ -1,5 +1,7 @@
 import PicoVerif.Model.AstWriters
 import PicoVerif.Lemmas.C10
+import PicoVerif.Lemmas.C10b
+import PicoVerif.Props.C09
 /-! C10 — luafmt output is canonical.  Theorems about `normRun`, the formatter's regex pipeline as a function: what
 `LuaFormatterWriter` writes for one run of space/newline/comment tokens (width `w`, indent level `d` in force,
 `atStart`/`atEnd` = the run starts / ends the token stream).  The whole output is these rendered runs interleaved
@@ -94,6 +96,31 @@ theorem comment_lines_indented (w d : Nat) (s e : Bool) (a ws m b : Bytes) (hws 
   rcases hm with rfl | rfl
   · exact normRun_comment_line w d s e a ws b 45 hws (Or.inl rfl)
   · exact normRun_comment_line w d s e a ws b 47 hws (Or.inr rfl)
+
+/-- where the trivia run in front of the `k`-th walked token starts: right after the previous walked token -/
+def runStart (walk : List (Nat × Nat)) (k : Nat) : Nat := if k = 0 then 0 else (walk.getD (k - 1) (0, 0)).1 + 1
+
+/-- **C10.line_start_indent_whole**: in the WHOLE text `luafmt` writes, every significant token that begins a line of the
+input (the trivia in front of it ends with a line feed followed by blanks only) stands right after a line feed and
+exactly `width x depth` spaces, `depth` being the level the tree walk (`walkInd`) assigns to it.  (Composition of the
+run-level theorem with C09.whole_output; the level itself is compared with an independent nesting count by the
+harness.) -/
+theorem line_start_indent_whole (w : Nat) (toks : List Tok) (out : Bytes) (h : luafmt w toks = .ok out) :
+    ∃ ts st', Peg.run Gram.gram toks.toArray (50 * toks.toArray.size + 200) (.nt Gram.nChunk) { pos := 0, maxPos := none } = .ok (some (ts, st')) ∧
+      ∀ (k i d : Nat), (ts.flatMap fun t => walkInd toks.toArray t 0)[k]? = some (i, d) →
+        ∀ pre ws, runText toks.toArray (runStart (ts.flatMap fun t => walkInd toks.toArray t 0) k) i = pre ++ [10] ++ ws →
+          ws.all (fun c => c == 32 || c == 9) = true → pre.getLast? ≠ some 13 →
+          ∃ a b, out = a ++ [10] ++ indentOf w d ++ (toks.toArray.getD i default).code ++ b := by
+  obtain ⟨ts, st', hrun, ha⟩ := astWrite_ok_walk _ toks out h
+  refine ⟨ts, st', hrun, ?_⟩
+  intro k i d hk pre ws hrt hws hpre
+  obtain ⟨a, b, hab⟩ := assemble_nth _ _ _ 0 [] out ha k i d hk
+  have hp : runStartFrom (ts.flatMap fun t => walkInd toks.toArray t 0) 0 k =
+      runStart (ts.flatMap fun t => walkInd toks.toArray t 0) k := rfl
+  rw [hp, hrt] at hab
+  obtain ⟨body, hb⟩ := normRun_line_start w d (runStart (ts.flatMap fun t => walkInd toks.toArray t 0) k == 0) pre ws hws hpre
+  rw [hb] at hab
+  exact ⟨a ++ body, b, by rw [hab]; simp only [indentOf, List.append_assoc]⟩
 
 example : normRun 2 1 false false "x\n\t // c \n    ".toUTF8.toList = "x\n  // c\n  ".toUTF8.toList := by decide +kernel
 example : normRun 2 1 false false "  \n\n\n\t-- c \n    ".toUTF8.toList = "\n\n  -- c\n  ".toUTF8.toList := by decide +kernel
